@@ -13,7 +13,7 @@
            "tn"      scanTag: reading the tag name
            "an" "aeq" "aq"   scanAttribute: reading the name / looking for `=` / looking for the value
            "et"      CSS, JS, JSON (and their strings): k bytes of `</style` / `</script` matched
-           "esc"     in a string: `\` seen (look-ahead for the quote)
+           "esc"     in a string: `\` seen (look-ahead for the quote or a second `\`)
            "jsl"     JS: `/` seen (look-ahead for `/` or `*`);  "bcs"  JS block comment: `*` seen
 
    It decides nothing about the real code (DESIGN 2.3): MC_AEProduct explores it against the
@@ -109,7 +109,7 @@ LDo(l, c) ==
                    ELSE LDo([l EXCEPT !.sub = "", !.k = 0], c)
          ELSE IF c = 62 \/ LSpace(c) THEN [l EXCEPT !.ctx = "HTML", !.q = 0, !.jsc = 0, !.sub = "", !.k = 0]
               ELSE LDo([l EXCEPT !.sub = "", !.k = 0], c)
-    [] l.sub = "esc" -> IF c = l.q THEN [l EXCEPT !.sub = ""] ELSE LDo([l EXCEPT !.sub = ""], c)
+    [] l.sub = "esc" -> IF c = l.q \/ c = 92 THEN [l EXCEPT !.sub = ""] ELSE LDo([l EXCEPT !.sub = ""], c)   \* `\` + quote, `\` + `\`
     [] l.sub = "jsl" -> CASE c = 47 -> [l EXCEPT !.jsc = 1, !.sub = ""]
                           [] c = 42 -> [l EXCEPT !.jsc = 2, !.sub = ""]
                           [] OTHER -> LDo([l EXCEPT !.sub = ""], c)
